@@ -75,10 +75,10 @@ CHECKS["C18"] = ("E3", "deterministic simulation with fault injection inside a t
   "exploration",
   "Handle never panics out; undecodable => error and previous rules stay; decodable => exactly its valid rules reported field for field (wire round trip incl. hotspot specific items) and governing probe traffic; empty => cleared; identical redelivery => no change incl. controller state; file source: after each delivered event the managers equal what the file held at that moment (previous rules if undecodable), cleared after remove / rename. Sampling of histories; event order per file is FIFO.",
   "Trusted: stub watcher (verif/sim/simfsnotify) has the surface the datasource uses; synctest quiescence; rule-set model shared with C13. One datasource per module.", "DESIGN.md §3 C18")
-CHECKS["C20"] = ("E3", "deterministic simulation inside a testing/synctest bubble (go1.26.8): seeded per-node success/failure histories and fake-time advances; the outlier recycler / retryer worker goroutines, their channels and time.AfterFunc timers are real and run on the bubble's fake clock with quiescence after every step; per-node reference breakers and a recycle model as oracle",
+CHECKS["C20"] = ("E1d", "discrete-event deterministic simulation: seeded per-node success/failure histories and virtual-time advances; core/outlier's time.AfterFunc timers live in the simulator's timer queue on the virtual clock (timers due at the same instant fire in a seeded order), the task channels of the recycler / retryer are consumed by the harness with the workers' own loop bodies (generated from the source by the overlay) in a seeded order, and the order in which the slot visits the node map is a seeded permutation; per-node reference breakers and a recycle model as oracle",
   "exploration",
-  "At every request: FilterNodes without duplicates, subset of the nodes the reference breaker rejects, size <= floor(k*n/den) in integers; HalfOpenNodes == nodes in passive half-open probing; nodes that completed a request successfully since being scheduled for recycling stay known; no unknown node appears. Sampling of configurations and histories.",
-  "Trusted: reference breaker model (shared with C03), synctest fake clock, scripted RecoveryCheckFunc instead of TCP dial; overlay helper that (re)starts the workers inside the bubble and the renamed init functions.", "DESIGN.md §3 C20")
+  "At every request: FilterNodes without duplicates, subset of the nodes the reference breaker rejects, size <= floor(k*n/den) in integers; HalfOpenNodes == nodes in passive half-open probing; nodes that completed a request successfully since being scheduled for recycling stay known; no unknown node appears. Sampling of configurations, histories, same-instant timer orders and node visiting orders.",
+  "Trusted: reference breaker model (shared with C03), the simulator's timer queue (sim/timers.go) standing in for runtime timers, scripted RecoveryCheckFunc instead of TCP dial; the overlay's generated VerifDrain functions (same statements as the worker loops, run on the harness goroutine) and the renamed init functions.", "DESIGN.md §3 C20, §9.1")
 CHECKS["C15"] = ("E2r", "deterministic simulation under the Go race detector: the worker is built with -race; 3-6 simulated callers (traffic incl. requests through the outlier slots, per-resource and whole-set rule churn of all six modules, getters and statistics readers) are interleaved by the seeded scheduler at every atomic access and lock operation; the scheduler hands over by spinning on a plain word inside go:norace code so that it adds no happens-before edge and the detector judges only the program's own synchronisation",
   "exploration",
   "(1) any race report is a violation (worker stops at the first one, the run in flight is regenerated from a progress file as the replay); (2) no panic, no deadlock, all callers finish; (3) a request on a churned resource is always decided by one of the two complete rule lists (blocked by block0 or block1), never a mixture; (4) the stable and the rule-free resource are unaffected by churn elsewhere. Sampled schedules (3*10^4 per quick run).",
